@@ -42,6 +42,13 @@ func EnvFor(key string, opt sys.Options) *sys.Env {
 	return e
 }
 
+// DropEnv forgets a cached closed system (after a handler got stuck in it, holding a connection and locks).
+func DropEnv(key string) {
+	envMu.Lock()
+	delete(envs, key)
+	envMu.Unlock()
+}
+
 // Reset empties every table, reloads the initial rows and clears coordinator state and journals.
 func Reset(e *sys.Env, s *gen.Schema, init []int) error {
 	e.Srv.Fault = nil
